@@ -114,6 +114,8 @@ pub struct C20Scn {
 pub const NAME_POOL: &[&str] = &[
     "feature1", "feature2", "feature", "Feature1", "feature10", "f", "vec![]", "", "removal-marker", "time-limited",
     "+00:00", "機能A", "a b", "x=y", "--flag", "<!-- <", "> -->", "true",
+    // characters that option parsers or config readers like to treat as separators
+    "exp-1,variant-b", "a;b", "a:b", "a|b", " lead", "trail ", "tab\there", "#comment", "a,b,c",
 ];
 
 const NEW_YEAR: i64 = 1_704_067_200; // 2024-01-01T00:00:00Z
